@@ -640,7 +640,7 @@ def check_trace(stream, inp, res):
 class C08(fw.Property):
     id = "C08"
     coq_props = "Props/C08.v"
-    gen_jobs = []
+    gen_jobs = ["c03_constants", "c14_message_id"]     # round 7: constants + message-ID successor tie (Proofs/C08Tie.v)
     model_imports = ["Verif.Model.C08"]
     quick_budget = 300
     thorough_budget = 6000
